@@ -219,6 +219,30 @@ func VerifC03ContractEvents() {
 			verifapi.Assert(spendable.Cmp(min) >= 0, "c03.events.client-below-min-refused")
 		}
 	}
+	// the deposit lookup may be in trouble at the first attempt (the chain read fails, or the deposit is
+	// time-locked): that is an error of its own - never a verdict about a balance the pool could not read
+	if trouble := verifapi.Choose("lookup-trouble", 3); trouble != 0 {
+		if trouble == 1 {
+			ch.failReads = 1
+		} else {
+			ch.timelocked[key] = true
+		}
+		var err error
+		if verifapi.Bool("trouble-at-keepalive") {
+			verifapi.SetNow(now.Add(30000000000))
+			_, err = mgr.OnUpdate(store.Node{ID: client, LastSeen: now}, []store.Node{{ID: host, IsHost: true}})
+			credit = new(big.Int).Sub(credit, big.NewInt(50000000000)) // (if the charge was made)
+		} else {
+			err = mgr.OnClient(store.Node{ID: client})
+		}
+		verifapi.Reach("c03.events.trouble")
+		if lbe, ok := err.(balance.LowBalanceError); ok {
+			spendable := new(big.Int).Add(credit, d1)
+			verifapi.Assert(spendable.Cmp(min) < 0, "c03.events.unreadable-deposit-is-not-a-low-balance")
+			verifapi.Assert(lbe.CurrentBalance.Cmp(spendable) == 0, "c03.events.error-reports-actual-balance")
+		}
+		return
+	}
 	judge(mgr.OnClient(store.Node{ID: client}), new(big.Int).Add(credit, d1), "first")
 	// the deposit changes on-chain; the contract emits Balance(wallet, new deposit)
 	ch.deposit[key] = d2
